@@ -90,6 +90,9 @@ type FS struct {
 
 	// CrashMode: file data reaches the durable image only through Sync.
 	CrashMode bool
+	// WallClock: timestamps come from the wall clock instead of the logical clock (for checks in which "a moment
+	// ago" has to mean that to the server too). Set before use.
+	WallClock bool
 	// SyncCount counts File.Sync calls.
 	syncs int
 }
@@ -161,6 +164,9 @@ func perr(op, p string, e error) error { return &os.PathError{Op: op, Path: p, E
 
 func (f *FS) now() time.Time {
 	f.tick++
+	if f.WallClock {
+		return time.Now()
+	}
 	return baseTime.Add(time.Duration(f.tick) * time.Millisecond)
 }
 
